@@ -51,10 +51,12 @@ Theorem C02_exceptions_refuted : forall n m w, In (n, m, w) wf_table -> forall e
   exists s s' k, In s (full_pre m) /\ exn_cand m e s = true /\ wsem (m_cfg m) w s s' k /\ exn_bad e s' = true.
 Proof. exact c02_exceptions_refuted. Qed.
 
-(* D10: every state-preparation / state-map workflow has a branch ending with a non-native single-qudit gate *)
-Theorem C02_stateprep_refuted : forall n m w, In (n, m, w) wf_table -> is_state m = true ->
-  exists s s' k, In s (full_pre m) /\ wsem (m_cfg m) w s s' k /\ sqn s' = false /\ c02_post_full s' = false.
-Proof. exact c02_stateprep_refuted. Qed.
+(* D10 (state-preparation / state-map workflows had no single-qudit retarget stage: C02_stateprep_refuted until repo
+   commit df47266) is fixed: the state workflows are now covered by the theorems above with sq_native in the post *)
+Example C02_stateprep_now_native :
+  has_entry (fun x => let '(_, m, w) := x in
+     is_state m && wf_establishes (m_cfg m) w (c02_pre m) (fun s => sqn s && mqn s && is_d0 s)) = true.
+Proof. vm_compute. reflexivity. Qed.
 
 (* a gate on more than two qudits in the model's gate set: a branch ends with an uncoupled multi-qudit gate *)
 Theorem C02_many_model_refuted : forall n m w, In (n, m, w) wf_table -> many_model (m_cfg m) = true ->
